@@ -2,6 +2,7 @@ import QuickAdd.Lemmas.SearchMap
 import QuickAdd.Props.C06
 import QuickAdd.Props.C15
 import QuickAdd.Lemmas.SpanReach
+import QuickAdd.Lemmas.SpanHull
 /-!
 # C09 — words around a time expression neither change its meaning nor blur its span
 
@@ -15,6 +16,9 @@ Span half: anchoring keeps the span (`C06.latent_span`), the rule wrapper spans 
 `span_within_tokens`: if no pattern match of the text starts before offset `lo` or ends after `hi` (the surrounding
 words are inert in the property's sense), then **no candidate's span does** — for every scorer, depth limit, deadline; with
 `C02.candidate_span` (start < end): the reported span lies inside the expression, never on the neighbouring words.
+`span_exact`: the span of every streamed candidate is **exactly** the stretch of text from the start of the first to the end of
+the last of the pattern matches it consumed — a contiguous block of a gap-free match sequence of the text (`Lemmas/SpanHull`:
+every reachable production is a hull of its initial sequence) — for every scorer, depth limit, deadline.
 The two lexical hypotheses — no token touches the surrounding words, the tokens inside are the shifted tokens of the
 expression alone — are decided per input by running the library's own patterns (sweep), as the property prescribes.
 -/
@@ -93,5 +97,31 @@ theorem span_within_tokens {S : Type} (sc : Scorer S) (ts : Ts) (o : Opts) (txt 
       exact (hin a (regexStack_mem txt _ fuel s hs a ha)).1
   have := reach_span_in sc ts o.depth txt lo hi _ hinit p _ rules hr
   exact ⟨this.2 c.res hm, (this.1.2 c.res hm).1, (this.1.2 c.res hm).2⟩
+
+/-- **the span delimits exactly the expression**: every streamed candidate stands for a contiguous, non-empty block `b` of one of
+    the initial gap-free match sequences of the text, and its span runs from the start of the block's first match to the
+    (right-trimmed) end of its last — every scorer, depth limit, `relative_match_len`, deadline -/
+theorem span_exact {S : Type} (sc : Scorer S) (ts : Ts) (o : Opts) (txt : List Nat) (fuel : Nat) :
+    ∀ c ∈ (searchCore sc ts o txt fuel).1.1,
+      ∃ e0 ∈ (initialStack sc o.depth o.relMatchLenNum o.relMatchLenDen txt fuel).1, ∃ pre b post a z,
+        e0.prod = pre ++ b ++ post ∧ b.head? = some a ∧ b.getLast? = some z ∧ c.res.ms = a.ms ∧ c.res.me = z.me ∧
+        (∀ k ∈ e0.prod, k ∈ matchRegex txt) := by
+  intro c hc
+  obtain ⟨p, rules, hr, hm, _⟩ := C15.search_sound sc ts o txt fuel c hc
+  obtain ⟨e0, he0, hh⟩ := reach_hull sc ts o.depth txt _ p _ rules hr
+  obtain ⟨pre, b, post, a, z, e, h1, h2, h3, h4⟩ := hh.mem c.res hm
+  refine ⟨e0, he0, pre, b, post, a, z, e, h1, h2, h3, h4, ?_⟩
+  intro k hk
+  have he' := he0
+  unfold initialStack at he'
+  simp only at he'
+  have h3' := mem_sortE _ _ _ (List.mem_filter.mp (mem_trunc _ _ _ he')).1
+  simp only [List.mem_map] at h3'
+  obtain ⟨s, hs, rfl⟩ := h3'
+  exact regexStack_mem txt _ fuel s hs k hk
+
+/-- the hull is not vacuous: a value over two matches spans both (kernel-evaluated on 'tomorrow 5pm') -/
+example : ((searchCore constScorer ⟨⟨2018, 3, 7⟩, 12, 43⟩ {} [116, 111, 109, 111, 114, 114, 111, 119, 32, 53, 112, 109] 400).1.1.map fun c => (c.res.ms, c.res.me)).contains (0, 12) = true := by
+  decide +kernel
 
 end QuickAdd.C09
